@@ -48,6 +48,12 @@ def c01(ctx, rep):
     _pin_iterable(m, rep, "C01")
     memo_uses(m, rep, "C01")
     _no_cross_state(m, rep, "C01")
+    _gate_v6(m, rep, "C01")
+    from .checks_misc import stage_state_rule
+    stage_state_rule(ctx, rep, "C01", IP_STAGE_ROOTS)
+
+
+IP_STAGE_ROOTS = ["_BaseIpAnonymizer", "IpAnonymizer", "IpV6Anonymizer", "anonymize_ip_addr", "_anonymize_match"]
 
 
 def _is_copy(t):
@@ -392,6 +398,8 @@ def c02(ctx, rep):
     m.check_base_init(rep, "C02")
     _undo_threading(ctx, m, rep, "C02")
     memo_uses(m, rep, "C02")
+    from .checks_misc import stage_state_rule
+    stage_state_rule(ctx, rep, "C02", IP_STAGE_ROOTS)
     # deanonymize must not store a full entry through the direct view keyed by anonymized bits
     fp = m.A.paths(m.f_dean)
     for path in [x for x in fp.paths if x.feasible()]:
@@ -413,6 +421,10 @@ def c02(ctx, rep):
     _gate_content(ctx, m, rep, "C02")
     m.pin_facts(rep, "C02")  # an exempt (preserved) block that is not pinned lets images land in it, which are then never undone
     _pin_iterable(m, rep, "C02")
+    # file-level round trip: both address stages run on every line, whatever the line contains, in both directions
+    from .checks_pipe import line_loop_rules, independent_wiring
+    line_loop_rules(ctx, rep, "C02")
+    independent_wiring(ctx, rep, "C02", only=("anonymizer4", "anonymizer6"))
 
 
 def c03(ctx, rep):
@@ -448,7 +460,8 @@ def c03(ctx, rep):
     # salt defaulting must not replace a given salt
     _salt_defaulting(ctx, rep, "C03")
     _pin_iterable(m, rep, "C03")
-    from .checks_misc import argument_mutation_rule
+    from .checks_misc import argument_mutation_rule, stage_state_rule
+    stage_state_rule(ctx, rep, "C03", IP_STAGE_ROOTS)
     argument_mutation_rule(ctx, rep, "C03", [f for f in [c.find_method("__init__") for c in [m.base] + m.p.subclasses(m.base)] if f is not None])
     m.check_split(rep, "C03")
     m.check_split(rep, "C03.undo", inverse=True)
@@ -620,6 +633,74 @@ def cli_options(ctx):
     return out
 
 
+def _merge_alternatives(v, given, depth=0):
+    """All values the merge expression can take, each as a list of (kind, term) element sources; kind is
+    'rfc' (the RFC 1918 table), 'user' (the user's networks), 'empty', 'none' or 'opaque'."""
+    if depth > 12:
+        return [[("opaque", v)]]
+    inner = _is_copy(v)
+    if inner is not None:
+        return _merge_alternatives(inner, given, depth + 1)
+    if v[0] == "attr" and v[2] == "RFC_1918_NETWORKS":
+        return [[("rfc", v)]]
+    if any(x[0] == "attr" and x[2] == "preserve_addresses" for x in subterms(v)) and not any(x[0] == "attr" and x[2] == "RFC_1918_NETWORKS" for x in subterms(v)) and v[0] in ("attr", "call", "sub"):
+        # the user's option value (raw, or split into a list)
+        return [[("user", v)]] if given else [[("none", v)]]
+    if v[0] in ("list", "tuple"):
+        if not v[1]:
+            return [[("empty", v)]]
+        return [[("opaque", v)]]
+    if v[0] == "const" and v[1] is None:
+        return [[("none", v)]]
+    if v[0] == "binop" and v[1] == "+":
+        out = []
+        for a in _merge_alternatives(v[2], given, depth + 1):
+            for b in _merge_alternatives(v[3], given, depth + 1):
+                if any(k == "none" for k, _ in a + b):
+                    out.append([("opaque", v)])  # None + list raises
+                else:
+                    out.append([x for x in a + b if x[0] != "empty"])
+        return out
+    if v[0] == "mut" and v[2] in ("extend", "__iadd__") and len(v[3]) == 1:
+        return _merge_alternatives(("binop", "+", v[1], v[3][0]), given, depth + 1)
+    if v[0] == "boolop":
+        out = []
+        items = list(v[2])
+        for i, x in enumerate(items):
+            last = i == len(items) - 1
+            for a in _merge_alternatives(x, given, depth + 1):
+                kinds = {k for k, _ in a}
+                truthy = bool(kinds & {"rfc", "user", "opaque"})
+                falsy = not a or kinds <= {"empty", "none"} or "opaque" in kinds
+                if v[1] == "or":
+                    if truthy or last:
+                        out.append([y for y in a if y[0] not in ("empty", "none")])
+                    if not falsy:
+                        return out  # evaluation stops here on every input
+                else:
+                    if falsy or last:
+                        out.append([y for y in a if y[0] not in ("empty", "none")])
+                    if not truthy:
+                        return out
+        return out
+    if v[0] == "ifexp":
+        c = v[1]
+        nt = None
+        if c[0] == "compare":
+            for x in subterms(c):
+                if x[0] == "attr" and x[2] == "preserve_addresses" or x[0] in ("call", "sub") and any(y[0] == "attr" and y[2] == "preserve_addresses" for y in subterms(x)):
+                    r = M.is_none_test(c, x)
+                    if r is not None:
+                        nt = r
+                        break
+        if nt is not None and given is not None:
+            is_none = not given
+            take_first = (nt and is_none) or (not nt and not is_none)
+            return _merge_alternatives(v[2] if take_first else v[3], given, depth + 1)
+        return _merge_alternatives(v[2], given, depth + 1) + _merge_alternatives(v[3], given, depth + 1)
+    return [[("opaque", v)]]
+
+
 def _private_merge(ctx, m, rep, cl, undo_independent_only=False):
     """--preserve-private-addresses merges RFC 1918 into preserve_addresses on both branches, independent of direction."""
     p, A, G, folder = ctx.p, ctx.A, ctx.G, ctx.folder
@@ -691,6 +772,15 @@ def _private_merge(ctx, m, rep, cl, undo_independent_only=False):
             continue
         if flag:
             ok = has_rfc and (has_user if given else True)
+            # value semantics, not containment: every way the expression can evaluate (x or y, conditional expressions, concatenation)
+            # yields the RFC 1918 networks, and the user's networks when they were given
+            alts = _merge_alternatives(v, given) if v is not None else []
+            for parts in alts:
+                kinds = {k for k, _ in parts}
+                if "rfc" not in kinds or (given and "user" not in kinds) or "opaque" in kinds:
+                    ok = False
+                    vs = vs + "  [evaluates to %s when the user's list is %s]" % (" + ".join(show(t)[:40] for _, t in parts) or "nothing", "given" if given else "absent")
+                    break
             rep.ob(cl + ".private-merged", "main[flag,%s]" % ("given" if given else "absent"), ok,
                    "with the flag set and --preserve-addresses %s, preserve_networks = %s; must contain the RFC 1918 networks%s" % ("given" if given else "absent", vs, " and the user's networks" if given else ""),
                    where(f_main, call.node), key="%s.private-merged|%s" % (cl, "given" if given else "absent"))
@@ -736,6 +826,9 @@ def c04(ctx, rep):
     memo_uses(m, rep, "C04")
     _undo_threading(ctx, m, rep, "C04")  # the image text is computed once from the parsed integer (no re-mapping loop that looks at host bits)
     _no_cross_state(m, rep, "C04")
+    _private_merge(ctx, m, rep, "C04")  # the private blocks reach the preserved networks (and so the pinned prefixes) whatever else is given
+    from .checks_misc import stage_state_rule
+    stage_state_rule(ctx, rep, "C04", IP_STAGE_ROOTS)
 
 
 
@@ -882,10 +975,18 @@ def c05(ctx, rep):
     _no_cross_state(m, rep, "C05")
     _private_merge(ctx, m, rep, "C05")
     _cli_binding_networks(ctx, m, rep, "C05")
-    # IPv6 has no masks/preserved networks: gate must be constant True (nothing else may be skipped)
+    _gate_v6(m, rep, "C05")
+    from .checks_misc import stage_state_rule
+    stage_state_rule(ctx, rep, "C05", IP_STAGE_ROOTS)
+
+
+def _gate_v6(m, rep, cl):
+    """IPv6 has no masks/preserved networks and no pinned block of its own: the gate must be constant True
+    (an address left alone without its block being pinned collides with the image of another address)."""
     f6 = m.method(m.v6, "should_anonymize")
     for path in m.A.paths(f6).paths:
-        rep.ob("C05.gate-v6", f6.name, path.returned() == ("const", True) and not path.conds, "IPv6 gate returns %s" % show(path.returned()), where(f6), nontrivial=False)
+        rep.ob(cl + ".gate-v6", f6.name, path.returned() == ("const", True) and not path.conds, "IPv6 gate returns %s under %s; nothing pins an IPv6 block, so every skipped address can collide with an image" % (show(path.returned()), path.describe()[:80]), where(f6),
+               key=cl + ".gate-v6|should_anonymize")
 
 
 def _cli_binding_networks(ctx, m, rep, cl):
